@@ -153,6 +153,17 @@ CHECKS = {
                 "exported by design (only the mapping rule is asserted there)",
         "technique": "exhaustive product over a declared configuration alphabet against the documented function",
     },
+    "C09": {
+        "category": "exploration",
+        "text": "Deviation-bounded exhaustive enumeration (k<=2) of key-delivery variants for four base captures: every line "
+                "permutation, CRLF / missing final newline, comment / blank / unrelated / duplicate lines at every position, four "
+                "hex-case variants, and every delivery (file, DSB at every packet position, every split over 2-3 DSBs, additional "
+                "empty DSB, every file/DSB split, DSB only without -s from three working directories, re-run through the real "
+                "command line). Oracle: the output file is byte-identical to the base variant's.",
+        "design_ref": "DESIGN.md section 5, C09",
+        "note": "trusted: our pcapng writer for DSBs; variants beyond two simultaneous deviations are not covered",
+        "technique": "deviation-bounded (k<=2) exhaustive enumeration with a byte-identity oracle",
+    },
 }
 
 NOT_YET = "check not built yet in this round (planned: bounded exhaustive exploration, see DESIGN.md section 5)"
